@@ -11,7 +11,7 @@ init API, and the object model (EbObject.h) makes the obligations local:
   C16.DCTORSAFE  in every destructor, a dereference *through* a pointer member that the constructor allocates is dominated
                  by a NULL test of that member (the release macros test their own argument, not sub-expressions of it)
 """
-from engine.facts import pstr, strip, callee_name, subexprs, fields_in, last_field, root_of, AnalysisBroken
+from engine.facts import is_lit, pstr, strip, callee_name, subexprs, fields_in, last_field, root_of, AnalysisBroken
 from engine.own import alloc_sites, ALLOC_KIND
 from engine.classes import Classes, ENC_INIT_API, DEC_INIT_API
 from engine.nulldom import NullDom
@@ -321,3 +321,98 @@ def run(P, rep, tier):
             else:
                 rep.ob('C16.DCTORSAFE', '%s/member:%s' % (dname, lf), True, d.loc(), 'no untested dereference through %s' % lf, nontrivial=used)
     rep.floor('C16.DCTORSAFE', 120)
+
+    # ---------------- UNDEF: the unwinding must not release a cell that was never written.
+    # An element-level allocation  B[k] = alloc  into an array B that the *same* function obtained from a non-zeroing
+    # allocator leaves the other cells of B (and B[k] itself, if the allocation macro returns before storing) undefined
+    # when it fails.  If the release code frees element cells of that member (EB_FREE_2D frees [0]; EB_*_PTR_ARRAY loop
+    # over all cells), then either B is zero-allocated, or - when only the literal cell [0] is ever released - every
+    # return that can be reached after B's allocation is preceded by a store to B[0] (the failing allocation macro
+    # stores its NULL result into the destination before it returns).
+    from engine.own import release_sites
+    rel = {}
+    for f in P.fns:
+        if f.nocfg or f.lib == 'Decoder':
+            continue
+        for ev, lf, kind, lvl, mac, tgt in release_sites(f):
+            if lvl == 'elem' and lf:
+                rel.setdefault(lf, []).append((f, mac, strip(strip(tgt)[2])))
+
+    def zeroing(f, ev):
+        e = ev['e']
+        rhs = strip(e[3])
+        if rhs[0] == 'c':
+            return callee_name(rhs) == 'calloc'
+        for b in f.blocks.values():
+            for ev2 in b['ev']:
+                if ev2['l'] == ev['l'] and ev2['k'] in ('decl', 'st'):
+                    e2 = ev2.get('e')
+                    if e2 is None:
+                        continue
+                    r = strip(e2) if ev2['k'] == 'decl' else (strip(e2[3]) if e2[0] == 'a' else None)
+                    if r and r[0] == 'c' and callee_name(r) in ('malloc', 'calloc', 'realloc'):
+                        return callee_name(r) == 'calloc'
+        return None
+
+    for f in P.fns:
+        if f.nocfg or f.lib == 'Decoder' or f in C.dead:
+            continue
+        sites = alloc_sites(f)
+        tops = {pstr(strip(t)): (ev, mac) for ev, lf, kind, lvl, mac, t in sites if lvl == 'top'}
+        done = set()
+        for ev, lf, kind, lvl, mac, t in sites:
+            if lvl != 'elem' or not lf:
+                continue
+            base = pstr(strip(strip(t)[1]))
+            if base not in tops or (base, lf) in done:
+                continue
+            done.add((base, lf))
+            rs = rel.get(lf, [])
+            bev, bmac = tops[base]
+            z = zeroing(f, bev)
+            key = '%s/%s' % (f.name, lf)
+            if not rs:
+                rep.ob('C16.UNDEF', key, True, f.loc(ev), 'no element-level release of %s anywhere: cells are never read by the unwinding' % lf, nontrivial=False)
+                continue
+            if z:
+                rep.ob('C16.UNDEF', key, True, f.loc(bev), 'array %s is zero-allocated (%s); element cells released by %s' % (base, bmac, sorted({g.name for g, _, _ in rs})))
+                continue
+            only0 = all(ix is not None and ix[0] == 'l' and ix[1] == 0 for _, _, ix in rs)
+            if not only0:
+                rep.ob('C16.UNDEF', key, False, f.loc(bev),
+                       'array %s comes from the non-zeroing %s, its cells are filled one by one by %s, and %s releases every cell: when the '
+                       'i-th element allocation fails the cells after i are uninitialised pointers that the destructor dereferences and frees'
+                       % (base, bmac, mac, sorted({g.name for g, _, _ in rs if g is not f})))
+                continue
+            cell0 = base + '[0]'
+
+            def transfer(e2, st, base=base, cell0=cell0):
+                if e2['k'] == 'st' and e2['e'][0] == 'a' and e2['e'][1] == '=':
+                    tp = pstr(strip(e2['e'][2]))
+                    if tp == base:
+                        return frozenset() if is_lit(e2['e'][3], 0) else frozenset(['alloc'])
+                    if tp == cell0 and 'alloc' in st:
+                        return (st - {'alloc'}) | {'def'}
+                return st
+
+            def edge(blk, i, st, base=base):
+                c = strip(blk.get('cond'))
+                if c is not None and 'alloc' in st:
+                    # the branch taken when B itself is NULL: B's own allocation failed, nothing to release
+                    if c[0] == 'u' and c[1] == '!' and pstr(strip(c[2])) == base and i == 0:
+                        return st - {'alloc'}
+                    if c[0] == 'b' and c[1] == '==' and pstr(strip(c[2])) == base and is_lit(c[3], 0) and i == 0:
+                        return st - {'alloc'}
+                return st
+            ins, outs = f.forward(frozenset(), transfer, edge=edge, meet=lambda a, b: a | b)
+            bad = []
+            for rv in f.events(('ret',)):
+                st = f.state_at(ins, transfer, rv)
+                if st and 'alloc' in st:
+                    bad.append(rv)
+            rep.ob('C16.UNDEF', key, not bad, f.loc(bad[0]) if bad else f.loc(bev),
+                   ('array %s comes from the non-zeroing %s and only cell [0] is released (%s); every return after its allocation is preceded by a store to %s'
+                    % (base, bmac, sorted({g.name for g, _, _ in rs}), cell0)) if not bad else
+                   ('a return at line %d can be reached after %s was allocated (non-zeroing %s) and before %s was written: the failing element allocation returns '
+                    'without storing its NULL result, so %s frees an uninitialised pointer' % (bad[0]['l'], base, bmac, cell0, sorted({g.name for g, _, _ in rs}))))
+    rep.floor('C16.UNDEF', 8)
